@@ -37,7 +37,12 @@ class DirHandler(BaseHandler):
         # directory must not leak into the listing.
         dirfiles = sorted(self.vfs.listdir(self.getselector()))
         ignorepatt = self.config.get("handlers.dir.DirHandler", "ignorepatt")
+        cachefile = self.config.get("handlers.dir.DirHandler", "cachefile")
         for file in dirfiles:
+            if file == cachefile or file.startswith(cachefile + "."):
+                # Our own cache file (and its temporary siblings) is never an
+                # entry nor a link file, whatever the ignore pattern says.
+                continue
             if self.prep_initfiles_canaddfile(
                 ignorepatt, self.selectorbase + "/" + file, file
             ):
